@@ -74,6 +74,16 @@ CLAIMED = {
         "natsort (the library the code uses) defines natural order",
         "DESIGN.md section 4 C11",
     ),
+    "C12": (
+        "output monitor: both writers' text parsed back by independent parsers, cell-by-cell comparison with definition+added-lost",
+        "The decomposition file and the VCF written by the real writers (directly and through genotype() with "
+        "*.aldy/*.vcf/*.simple outputs) for lists of 1-4 differing solutions x 1-4 copies are parsed back and compared per "
+        "solution and copy with definition + added - lost, read support, effect, dbSNP id, diplotype and allele list; "
+        "VCF cells (GT/MA/MI/DP), POS and REF/ALT are checked one by one. Wrong cells count as known findings only when "
+        "they are exactly what one of three documented defect mechanisms produces; anything else is a violation.",
+        "independent parsers in props/c12.py; read support taken from the Coverage object handed to the writer",
+        "DESIGN.md section 4 C12",
+    ),
 }
 
 NOT_YET = {}
